@@ -89,7 +89,7 @@ def runP (full : Bool) (o : Nat) (ops : String) : String := Id.run do
     if res == "PANIC" || res == "FUEL" then
       outs := outs.push res
       break
-    outs := outs.push s!"{res} last={picDigest st.getLast full} ref={picDigest st.getRef full} rem={cur.bits.length}"
+    outs := outs.push s!"{res} last={picDigest st.getLast full} ref={picDigest st.getRef full} rem={cur.bits.length} run={st.running}"
   return (if full then "PX " else "P ") ++ " | ".intercalate outs.toList
 
 def runPP (o : Nat) (hexs : String) : String :=
